@@ -9,7 +9,7 @@ HERE = os.path.dirname(os.path.abspath(__file__))
 
 def lib_srcs():
     pats = ['src/library/prog_args/*.cpp', 'src/library/prog_args/detail/*.cpp', 'src/library/common/*.cpp', 'src/library/common/detail/*.cpp', 'src/library/format/*.cpp',
-            'src/library/format/detail/*.cpp', 'src/library/appl/*.cpp']
+            'src/library/format/detail/*.cpp', 'src/library/appl/*.cpp', 'src/library/container/dynamic_bitset.cpp']
     out = []
     for p in pats:
         out += sorted(glob.glob(os.path.join(REPO, p)))
@@ -273,6 +273,11 @@ def rules():
     bad = [(['-x'], [], []), (['-a', '-x'], [], []), (['-b', '-y'], [], []), (['-a', '-b'], [], []), (['-a', '-b', '-x', '-y'], [], []), (['-a', '-b', '-x', '-p', '-q'], [], []), (['-a', '-b', '-y', '-g', '-p'], [], []),
            (['-x', '-r'], [], []), (['-b', '-x', '-r'], [], [])]
     fam.append((20, ok, bad))
+    # cfg 21: requires / excludes with the partner argument spelled short, long and abbreviated
+    ok = [(['-s', S(0), sp, S(1)] if not sp.endswith('=') else ['-s', S(0), sp + S(1)], ['s2', 'd2'], ['s=$0', 'n=#1']) for sp in ('-n', '--number', '--num', '--nu', '--numbe=')]
+    ok += [(['--name=' + S(0), '-g', '--numb', S(1)], ['s2', 'd2'], ['s=$0', 'n=#1', 'g=1']), (['--verb', '-q'], [], ['f=1', 'q=1']), (['-q', '-g'], [], ['q=1', 'g=1']), (['-n', S(0)], ['d2'], ['n=#0', 's=_'])]
+    bad = [(['-s', S(0)], ['s2'], []), (['--nam', S(0), '-g'], ['s2'], [])] + [(['-q', sp], [], []) for sp in ('-v', '--verbose', '--verb', '--ve')] + [(['--qui', '-g', '--verbo'], [], []), (['-qv'], [], [])]
+    fam.append((21, ok, bad))
     # cfg 4: one_of(a;b)
     ok = [(['-a'], [], ['a=1']), (['-b'], [], ['b=1']), (['-n', S(0), '-b'], ['d2'], ['b=1', 'n=#0']), (['-a', '--number=' + S(0)], ['d2'], ['a=1', 'n=#0'])]
     bad = [([], [], []), (['-n', S(0)], ['d2'], []), (['-a', '-b'], [], []), (['-b', '-n', S(0), '-a'], ['d2'], [])]
@@ -379,7 +384,8 @@ def c04_shapes(tier):
     # bitset / vector<bool> positions with a sign, huge positions
     for words, slots in ((['-b', S(0) + ',-' + S(1)], ['d1', 'd1']), (['--bits=-' + S(0)], ['d1']), (['-b-' + S(0)], ['d2']), (['-b', '-' + S(0)], ['d1']), (['-b', S(0)], ['b2']), (['-b', '18446744073709551615'], []), (['-b', '18446744073709551616'], []),
                          (['-b', '4294967295'], []), (['-b', '4294967296,' + S(0)], ['d1']), (['-z-' + S(0)], ['d1']), (['--vbool=' + S(0) + ',-' + S(1)], ['d1', 'd1']), (['-B', S(0) + ',-' + S(1)], ['d2', 'd1']), (['--bigbits=-' + S(0)], ['d2']), (['-B-' + S(0)], ['d1']), (['-B', S(0)], ['d3']),
-                         (['-B', '18446744073709551615'], []), (['-B', '4294967296,' + S(0)], ['d1']), (['-B', S(0)], ['b2']), (['-a', S(0) + ',-' + S(1) + ',' + S(0) + ',' + S(1)], ['d1', 'd1'])):
+                         (['-B', '18446744073709551615'], []), (['-B', '4294967296,' + S(0)], ['d1']), (['-B', S(0)], ['b2']),
+                         (['-D', '18446744073709551615'], []), (['-D', '18446744073709551614,' + S(0)], ['d1']), (['-D-' + S(0)], ['d1']), (['-D', S(0) + ',-' + S(1)], ['d1', 'd1']), (['-D', S(0)], ['b2']), (['--dynbits=9223372036854775808'], []), (['-a', S(0) + ',-' + S(1) + ',' + S(0) + ',' + S(1)], ['d1', 'd1'])):
         shapes.append(('hx_pa', [6, 0], lab('c04/positions', words), {'pa_tmpl': tmpl('safe', [], slots, words)}))
     # argument files with arbitrary content (program-argument file and a file named with --arg-file); a file that names itself /
     # two files that name each other
@@ -425,6 +431,8 @@ def c05_shapes(tier):
         shapes.append(('hx_pa_keys', [mode, 0], 'c05/keys/mode%d' % mode))
     for form in range(12):
         shapes.append(('hx_pa_keyspec', [form, 0], 'c05/keyspec/form%d' % form))
+    for form in range(8):
+        shapes.append(('hx_pa_dashkey', [form, 0], 'c05/keys with dashes/form%d' % form))
     for noabbr in (0, 1):
         for line in range(7):
             shapes.append(('hx_pa_subgroup', [noabbr, line], 'c05/subgroup/noabbr%d/line%d' % (noabbr, line)))
@@ -521,6 +529,8 @@ def c06_shapes(tier):
     shapes.append(('hx_pa', [6, 0], 'c06/bitset beyond size', {'pa_tmpl': tmpl('throw', [], ['r1:8:9'], ['-b', S(0)])}))
     shapes.append(('hx_pa', [6, 0], 'c06/big bitset', {'pa_tmpl': tmpl('ok', ['bigbs=#0,#1,#2'], ['d1', 'r2:60:69', 'r3:190:199'], ['-B', S(0) + ',' + S(1), '--bigbits=' + S(2)])}))
     shapes.append(('hx_pa', [6, 0], 'c06/big bitset beyond size', {'pa_tmpl': tmpl('throw', [], ['r3:200:999'], ['-B', S(0)])}))
+    shapes.append(('hx_pa', [6, 0], 'c06/dynamic bitset', {'pa_tmpl': tmpl('ok', ['dynbs=#0,#1,#2'], ['r1:0:3', 'r1:4:9', 'r2:10:40'], ['-D', S(0) + ',' + S(1), '--dynbits=' + S(2)])}))
+    shapes.append(('hx_pa', [6, 0], 'c06/dynamic bitset impossible position', {'pa_tmpl': tmpl('throw', [], [], ['-D', '3,18446744073709551615'])}))
     shapes.append(('hx_pa', [6, 0], 'c06/big bitset negative', {'pa_tmpl': tmpl('throw', [], ['r1:1:9'], ['-B', '5,-' + S(0)])}))
     for words, slots, items in ((['-z', S(0)], ['r1:0:9'], ['vb=#0']), (['-z', S(0)], ['r2:10:12'], ['vb=#0']), (['-z', S(0) + ',' + S(1)], ['r2:10:12', 'r2:62:65'], ['vb=#0,#1']),
                                 (['-z', S(0), '--vbool', S(1)], ['r3:127:129', 'r3:190:193'], ['vb=#0,#1'])):
